@@ -30,14 +30,16 @@ def _stage(ops, i):
 
 
 def c12_stats(cases, model):
-    ops, stages, outcomes, shapes, types = (collections.Counter() for _ in range(5))
+    ops, stages, outcomes, shapes, types, kinds = (collections.Counter() for _ in range(6))
     lens = []
     for c in cases:
         lens.append(len(c["ops"]))
+        tags = c.get("tags") or []
+        kinds[(tags[-1].split(":")[0] if tags else "random")] += 1
         impl = c.get("impl") or []
         for i, o in enumerate(c["ops"]):
             k = _kind(o)
-            ops[k] += 1
+            ops["drop-hold" if o == "drop hold" else k] += 1
             if k in ("peer", "peerwf"):
                 f = o.split(" ")
                 stages[_stage(c["ops"], i)] += 1
@@ -63,7 +65,7 @@ def c12_stats(cases, model):
                     for part in P.split("|"):
                         if part not in ("-", "wfault"):
                             outcomes["peer:" + part.split("(")[0]] += 1
-    return dict(verdicts=_verdict_stats(cases, model), ops=dict(ops), stage_of_peer_message=dict(stages),
+    return dict(verdicts=_verdict_stats(cases, model), ops=dict(ops), case_kinds=dict(kinds), stage_of_peer_message=dict(stages),
                 decoded=dict(shapes), message_types=dict(types.most_common(24)), impl_outcomes=dict(outcomes),
                 max_case_len=max(lens or [0]), mean_case_len=round(sum(lens) / max(1, len(lens)), 1))
 
@@ -80,8 +82,9 @@ CONFIG = dict(
     theorems=[_T + t for t in [
         "C12_generated_sound", "C12_total", "C12_total_generated", "C12_total_run", "C12_contained", "C12_invalid_ignored",
         "C12_session_closed_only_by_bye", "C12_prehello_local_effects", "C12_validated_nonnil", "C12_derefs_validated",
-        "C12_model_covers_derefs", "C12_no_deadlock_facts", "C12_unvalidated_crashes",
-        "C12_defer_under_hello_lock_deadlocks", "C12_unchecked_bye_crashes"]],
+        "C12_model_covers_derefs", "C12_no_deadlock_facts", "C12_read_loop_bounded", "C12_unvalidated_crashes",
+        "C12_defer_under_hello_lock_deadlocks", "C12_unchecked_bye_crashes", "C12_live_queue_flush_spins",
+        "C12_unguarded_details_crashes"]],
     generated=["ShapesFederation"],
     harness=dict(pkg="signaling", test="TestVerifC12", timeout=1500),
     stats=c12_stats,
@@ -91,8 +94,16 @@ CONFIG = dict(
          "with resume pending / resumed / resume refused / closed) with valid messages, then 1-3 hostile actions: a "
          "structured document of every ServerMessage type with members removed, null, wrong-typed, truncated, byte-flipped, "
          "wrapped, deeply nested, or fixed type-confused documents; the same with the client's write direction broken; "
-         "connection drops (tcp / close frame / reset), binary frames, frames beyond the read limit, local leave / message; "
-         "then liveness probes. A case is non-trivial if a hostile frame or drop happened after the session started; "
+         "connection drops (tcp / close frame / reset / the remote server refusing reconnects for a while, so that local "
+         "messages are queued), binary frames, frames beyond the read limit, local leave / message; then liveness probes. "
+         "Before the random cases two deterministic batteries: (1) for every raw JSON member the handlers decode themselves "
+         "(found by parsing the handlers of the tree under test: error.details, message.data, control.data, event.message.data) "
+         "a full template of the target type built from the struct declarations, sent with every single-member variant (absent, "
+         "null, {}, wrong types, every literal the handlers compare with at every string leaf) inside an otherwise valid message, "
+         "for every error code the handlers dispatch on, joined / hello pending / resume pending; (2) the handshake run round "
+         "after round with one fault per round at every point (client write failing while it handles welcome / hello / room, drop "
+         "right after them), with and without queued local messages, ending with a local message, the probe and the session "
+         "expiry, which must complete. A case is non-trivial if a hostile frame or drop happened after the session started; "
          "distinct = distinct op lists",
     trusted_base=[
         "encoding/json + easyjson decoding of ServerMessage and of the json.RawMessage blobs (the harness decodes every document "
@@ -116,8 +127,11 @@ MANIFEST = dict(
          "unreachable client state, with or without a failing write, no step crashes or self-deadlocks, and every effect is "
          "addressed to the one federated session or to the remote server. Whether a message reaches the handlers is decided "
          "by tables regenerated from ServerMessage.CheckValid / EventServerMessage.CheckValid and its call in readPump; every "
-         "sub-object dereference found by a go/ast walk of the handlers must be covered by those tables. Tied to the code by "
-         "a hostile websocket peer driving the real FederationClient of a real Hub.",
+         "sub-object dereference found by a go/ast walk of the handlers (including pointer members of values the handlers "
+         "decode themselves from raw JSON members, and pointer sub-objects handed to helpers) must be covered by those tables; "
+         "every loop the read loop runs must be a range, and the pending messages must be flushed from a snapshot of the queue "
+         "(a loop over the live queue spins forever once a write fails). Tied to the code by a hostile websocket peer driving "
+         "the real FederationClient of a real Hub, with connection faults at every point of the handshake / resume path.",
     note="Three defects confirmed and fixed (nil dereferences on malformed messages; self-deadlock of the read loop on a "
          "failed hello/room/bye write stalling the hub's housekeeping; nil connection after a failed bye). Trusted: JSON "
          "decoders, websocket library, harness. Not modelled: lock-order inversions with other goroutines, timers as time.",
